@@ -20,6 +20,21 @@ def keywords_written(f):
                         out.add(k.value.value)
                 if n.args and isinstance(n.args[0], ast.Constant) and isinstance(n.args[0].value, str):
                     out.add(n.args[0].value)
+            elif name is not None:
+                # a helper of the module that builds the keyword from its own parameter:
+                # `def _kw(arg, value): return keyword(arg=arg, value=...)` called as `_kw("type", typ)`
+                h = next((d for d in f.mod.tree.body if isinstance(d, ast.FunctionDef) and d.name == name), None)
+                if h is None:
+                    continue
+                params = [a.arg for a in h.args.posonlyargs + h.args.args]
+                for c in ast.walk(h):
+                    if isinstance(c, ast.Call) and (isinstance(c.func, ast.Name) and c.func.id == "keyword" or isinstance(c.func, ast.Attribute) and c.func.attr == "keyword"):
+                        src = next((k.value for k in c.keywords if k.arg == "arg"), c.args[0] if c.args else None)
+                        if isinstance(src, ast.Name) and src.id in params:
+                            i = params.index(src.id)
+                            a = next((k.value for k in n.keywords if k.arg == src.id), n.args[i] if i < len(n.args) else None)
+                            if isinstance(a, ast.Constant) and isinstance(a.value, str):
+                                out.add(a.value)
     return out
 
 
